@@ -1,5 +1,63 @@
-(* C12 placeholder until SessionProofs lands *)
-From Pcfg Require Import Session.
+(* C12 - the guess stream does not depend on thread timing or on stdin.
+   Property theorems only (proofs in SessionProofs.v). *)
+From Coq Require Import List Arith.
+From Pcfg Require Import Session SessionProofs.
 From PcfgGen Require Import Consts_gen.
+Import ListNotations.
+
+(* side condition, re-extracted from cracking_session.py on every run: the main
+   loop decides to quit by reading the flag, not by polling thread liveness *)
 Theorem C12_source_loop_polls_quit_flag : session_polls_quit_flag = true.
 Proof. reflexivity. Qed.
+
+(* no explicit quit in the schedule: status/help requests and the helper thread
+   ending at ANY point for ANY reason (EOF, closed stdin, errors) change nothing *)
+Theorem C12_schedule_independent : forall sch pts,
+  (forall t, ~ In EvQuitFlag (sch t)) ->
+  run_session true sch pts = run_session true quiet pts /\
+  out (run_session true sch pts) = full_stream pts /\
+  finished (run_session true sch pts) = true /\
+  saved_at (run_session true sch pts) = None /\
+  omen_saved (run_session true sch pts) = None.
+Proof. exact C12_schedule_independent. Qed.
+
+(* every schedule: never reordered or altered, only possibly shortened *)
+Theorem C12_prefix : forall sch pts,
+  exists rest, full_stream pts = out (run_session true sch pts) ++ rest.
+Proof. exact (fun sch pts => C12_prefix_partial true sch pts (or_introl eq_refl)). Qed.
+
+(* an early stop happens only at the pop of some pre-terminal p, after the
+   session was saved with p's probability; everything before p was written
+   completely, except that the pre-terminal just before p, if a Markov level,
+   may have been cut after its j-th guess - exactly the cut that was saved *)
+Theorem C12_quit_boundary : forall sch pts o,
+  o = run_session true sch pts -> finished o = false ->
+  exists before p after, pts = before ++ p :: after /\ saved_at o = Some (pid p) /\
+    ( (omen_saved o = None /\ out o = full_stream before) \/
+      (exists b1 m j,
+          before = b1 ++ [m] /\ markov m = true /\
+          omen_saved o = Some (pid m, j) /\ 1 <= j <= length (guesses m) /\
+          out o = full_stream b1 ++ firstn j (guesses m)) ).
+Proof. exact C12_quit_boundary_polling. Qed.
+
+(* a run that reports exhaustion is complete, with one exception that the code
+   really has (known finding R18): a quit inside the FINAL Markov level *)
+Theorem C12_finished : forall sch pts o,
+  o = run_session true sch pts -> finished o = true ->
+  saved_at o = None /\
+  ( (omen_saved o = None /\ out o = full_stream pts) \/
+    (exists b1 m j, pts = b1 ++ [m] /\ markov m = true /\
+        omen_saved o = Some (pid m, j) /\ 1 <= j <= length (guesses m) /\
+        out o = full_stream b1 ++ firstn j (guesses m)) ).
+Proof. exact C12_finished_polling. Qed.
+
+(* the loop as it was found (liveness polling): EOF on stdin truncates, and the
+   window between flag and thread end lets further Markov levels start *)
+Theorem C12_refuted_prefix_for_liveness_polling :
+  ~ (forall polls sch pts, exists rest, full_stream pts = out (run_session polls sch pts) ++ rest).
+Proof. exact C12_prefix_refuted. Qed.
+
+Print Assumptions C12_schedule_independent.
+Print Assumptions C12_prefix.
+Print Assumptions C12_quit_boundary.
+Print Assumptions C12_finished.
